@@ -621,3 +621,144 @@ static void run_c02_chain(void)
 }
 SIM_WORKLOAD("C11", "chain", run_c11_chain, 10)
 SIM_WORKLOAD("C02", "chain", run_c02_chain, 10)
+
+/* ================================================================ scenario C */
+/* ABT_thread_yield_to towards a unit that sits in a pool other streams pop from at the same
+ * time (the implementation re-checks under the pool lock and refuses with an error when it
+ * lost the race), and towards units of a legacy ABT_pool_def pool whose remove operation may
+ * fail.  Whatever happens, every target runs exactly once, on one stream at a time, the
+ * caller continues, and the blocked-unit count of the pool is balanced at the end. */
+#define YT_MAX 3
+typedef struct ytgt {
+    int id;
+    ABT_thread th;
+    volatile int runs, inside;
+} ytgt;
+typedef struct ycaller {
+    int id, rounds;
+    ABT_thread th;
+    ytgt T[YT_MAX];
+    volatile int done;
+} ycaller;
+static struct {
+    ABT_pool P;
+    ycaller C[3];
+    int ncall, c02, legacy;
+    long switched, refused, targets;
+} Y;
+
+static void yt_fn(void *arg)
+{
+    ytgt *t = (ytgt *)arg;
+    t->inside++;
+    SIM_CHECK(t->inside == 1, "once:runs-on-two-streams", "yield_to target %d is being executed twice at the same time", t->id);
+    t->runs++;
+    SIM_CHECK(t->runs == 1, "once:started-twice", "yield_to target %d started %d times", t->id, t->runs);
+    if (t->id & 1)
+        ABT_OK(ABT_thread_yield());
+    sim_progress();
+    t->inside--;
+}
+static void yt_switch(void *arg)
+{
+    ytgt *t = (ytgt *)arg;
+    int rc = ABT_thread_yield_to(t->th);
+    if (rc == ABT_SUCCESS)
+        Y.switched++;
+    else
+        Y.refused++; /* lost the race against another stream's pop, or remove failed */
+}
+static void yt_caller_fn(void *arg)
+{
+    ycaller *c = (ycaller *)arg;
+    for (int r = 0; r < c->rounds; r++) {
+        int n = 1 + (int)sim_rand_n(SIM_RS_CHAOS, YT_MAX);
+        for (int i = 0; i < n; i++) {
+            ytgt *t = &c->T[i];
+            t->id = c->id * 100 + r * 10 + i;
+            t->runs = t->inside = 0;
+            ABT_OK(ABT_thread_create(Y.P, yt_fn, t, ABT_THREAD_ATTR_NULL, &t->th));
+            Y.targets++;
+        }
+        ytgt *t = &c->T[sim_rand_n(SIM_RS_CHAOS, (uint32_t)n)];
+        if (Y.c02) {
+            unsigned m = canary_call(yt_switch, t, 0x6600 + (unsigned long)c->id);
+            SIM_CHECK(m == 0, "ctx:register-clobbered", "caller %d: callee-saved registers / FP control state changed across ABT_thread_yield_to (mask %#x)", c->id, m);
+        } else
+            yt_switch(t);
+        for (int i = 0; i < n; i++) {
+            ABT_OK(ABT_thread_free(&c->T[i].th));
+            SIM_CHECK(c->T[i].runs == 1 && c->T[i].inside == 0, "once:not-exactly-once", "yield_to target %d ran %d times by the time ABT_thread_free returned", c->T[i].id,
+                      c->T[i].runs);
+        }
+        sim_progress();
+    }
+    c->done = 1;
+}
+
+static void run_yield_to_race(int c02)
+{
+    memset(&Y, 0, sizeof Y);
+    Y.c02 = c02;
+    wl_user_pools_reset();
+    wl_env_swarm();
+    ABT_OK(ABT_init(0, NULL));
+    sim_allow_faults((1u << SIM_F_STALL) | (1u << SIM_F_SLOW_NODE) | (1u << SIM_F_TARGET_DELAY));
+    Y.legacy = plan_n(3) == 0;
+    int nes = Y.legacy ? plan_range(1, 2) : plan_range(2, 3);
+    static const ABT_pool_kind pk[] = { ABT_POOL_FIFO, ABT_POOL_FIFO_WAIT, ABT_POOL_RANDWS };
+    static const ABT_sched_predef sk[] = { ABT_SCHED_BASIC, ABT_SCHED_PRIO, ABT_SCHED_RANDWS };
+    int failing = 0;
+    if (Y.legacy) {
+        failing = plan_bool();
+        Y.P = wl_make_legacy_pool(failing);
+    } else
+        ABT_OK(ABT_pool_create_basic(pk[plan_n(3)], ABT_POOL_ACCESS_MPMC, ABT_FALSE, &Y.P));
+    ABT_xstream xs[3];
+    for (int e = 0; e < nes; e++)
+        ABT_OK(ABT_xstream_create_basic(sk[plan_n(3)], 1, &Y.P, ABT_SCHED_CONFIG_NULL, &xs[e]));
+    Y.ncall = plan_range(1, 3);
+    sim_note("%s yield_to-race pool=%s%s streams=%d callers=%d ", c02 ? "C02" : "C11", Y.legacy ? "legacy-def" : "built-in", failing ? "(remove may fail)" : "", nes, Y.ncall);
+    for (int i = 0; i < Y.ncall; i++) {
+        Y.C[i].id = i;
+        Y.C[i].rounds = plan_range(1, 3);
+        ABT_OK(ABT_thread_create(Y.P, yt_caller_fn, &Y.C[i], ABT_THREAD_ATTR_NULL, &Y.C[i].th));
+    }
+    for (int i = 0; i < Y.ncall; i++) {
+        ABT_OK(ABT_thread_free(&Y.C[i].th));
+        SIM_CHECK(Y.C[i].done, "once:not-exactly-once", "caller %d did not finish", i);
+        sim_progress();
+    }
+    /* nothing is blocked and nothing is queued now */
+    int nb = wb_pool_num_blocked(Y.P);
+    SIM_CHECK(nb == 0, "pool:num-blocked-unbalanced", "num_blocked of the pool is %d after every unit has been joined", nb);
+    size_t tot = 99;
+    ABT_OK(ABT_pool_get_total_size(Y.P, &tot));
+    SIM_CHECK(tot == 0, "pool:total-size", "ABT_pool_get_total_size = %zu after every unit has been joined", tot);
+    for (int e = 0; e < nes; e++) {
+        ABT_OK(ABT_xstream_join(xs[e]));
+        ABT_OK(ABT_xstream_free(&xs[e]));
+        sim_progress();
+    }
+    ABT_OK(ABT_pool_free(&Y.P));
+    ABT_OK(ABT_finalize());
+    sim_ledger_check_empty("after ABT_finalize");
+    wl_user_pools_check();
+    sim_count(c02 ? "c02.thread_yield_to_race_switched" : "c11.thread_yield_to_race_switched", (uint64_t)Y.switched);
+    sim_count(c02 ? "c02.thread_yield_to_race_refused" : "c11.thread_yield_to_race_refused", (uint64_t)Y.refused);
+}
+static void run_c11_ytrace(void)
+{
+    run_yield_to_race(0);
+}
+static void run_c02_ytrace(void)
+{
+    run_yield_to_race(1);
+}
+static void run_c06_ytrace(void)
+{
+    run_yield_to_race(0);
+}
+SIM_WORKLOAD("C11", "yield_to-race", run_c11_ytrace, 4)
+SIM_WORKLOAD("C02", "yield_to-race", run_c02_ytrace, 4)
+SIM_WORKLOAD("C06", "yield_to-race", run_c06_ytrace, 3)
